@@ -20,6 +20,8 @@ FAMILY = {
         _sk(pre=[3], effs=[7, 12], goal=[10], w_init="any"),
         _sk(pre=[4], effs=[2, 1], effcond=4, n_bounds="both", goal=[0]),
         _sk(pre=[12], effs=[10], goal=[2], second_action=[15, 12], pre2=[2]),
+        _sk(pre=[15], effs=[12, 10], goal=[0]),                     # static Boolean fluent with default true prunes groundings
+        _sk(pre=[15, 12], effs=[10], goal=[2], three_objects=True),
     ],
     "conditional_effects": [
         _sk(pre=[], effs=[0, 1], effcond=2, goal=[0]),
@@ -28,6 +30,7 @@ FAMILY = {
         _sk(pre=[], effs=[9, 1], effcond=4, n_bounds="both", goal=[0]),
         _sk(pre=[], effs=[13, 12], goal=[12]),
         _sk(pre=[], effs=[14, 15], effcond=10, goal=[12], w_init="any"),
+        _sk(pre=[], effs=[0, 1], effcond=2, goal=[0], second_action=[10], pre2=[]),   # a later unconditional action (name clashes with variants)
     ],
     "disjunctive_conditions": [
         _sk(pre=[6], effs=[12, 15], goal=[0]),
@@ -46,6 +49,7 @@ FAMILY = {
         _sk(pre=[8], effs=[10, 0], goal=[7]),
         _sk(pre=[], effs=[6, 12], goal=[8]),
         _sk(pre=[], effs=[13, 10], goal=[7]),
+        _sk(pre=[16], effs=[12], goal=[0]),                          # exists over a type with two objects: a real disjunction after expansion
     ],
     "usertype_fluents": [
         _sk(pre=[10], effs=[7, 12], goal=[0], w_init="any"),
@@ -76,6 +80,8 @@ FAMILY = {
         _sk(pre=[9], effs=[12], goal=[0]),
         _sk(pre=[], effs=[17, 12], goal=[0]),
         _sk(pre=[], effs=[11], goal=[9], second_action=[12], pre2=[9]),
+        _sk(pre=[], effs=[18, 12], goal=[0]),                        # decrease / increase of a fluent that has no value yet
+        _sk(pre=[], effs=[19, 12], goal=[0], second_action=[11], pre2=[]),
     ],
 }
 
